@@ -19,10 +19,11 @@ class SimCrash(BaseException):
 
 
 class SimRaw(io.RawIOBase):
-    def __init__(self, disk, fd, name, readable, writable):
+    def __init__(self, disk, fd, name, readable, writable, real=None):
         super().__init__()
         self._disk = disk
         self._fd = fd
+        self._real = real
         self.name = name
         self._readable = readable
         self._writable = writable
@@ -59,6 +60,8 @@ class SimRaw(io.RawIOBase):
             finally:
                 fd, self._fd = self._fd, -1
                 if fd >= 0:
+                    if self._writable and self._real is not None and not self._disk.crashed:
+                        self._disk.stamp_fd(fd)
                     os.close(fd)
 
     def readinto(self, buf):
@@ -133,12 +136,40 @@ class Disk:
         self.cfg = cfg
         self.fault = None
         self.crashed = False
+        self.ticks = cfg.get("clock_ticks", 0)
         self.op_write_bytes = 0
         self.op_read_bytes = 0
         self.events = []
         self.fired_faults = []
         self.stats = {"opens": 0, "opens_passthrough": 0, "raw_reads": 0, "raw_writes": 0,
                       "short_reads": 0, "short_writes": 0, "opens_without_encoding": 0}
+
+    # -- simulated clock --------------------------------------------------------------------
+    def now(self):
+        """The simulator's clock, used for every modification time on the disk: 'mono' advances
+        two seconds per write, 'frozen' stands still (coarse timestamps, restored backups),
+        'backwards' steps back ten seconds per write.  Never the wall clock."""
+        self.ticks += 1
+        mode = self.cfg.get("mtime_mode", "mono")
+        if mode == "frozen":
+            return 1700000000
+        if mode == "backwards":
+            return 1700000000 - 10 * self.ticks
+        return 1700000000 + 2 * self.ticks
+
+    def stamp_fd(self, fd):
+        when = self.now()
+        try:
+            os.utime(fd, (when, when))
+        except OSError:
+            pass
+
+    def stamp_path(self, full):
+        when = self.now()
+        try:
+            os.utime(full, (when, when))
+        except OSError:
+            pass
 
     # -- plumbing -------------------------------------------------------------------------
     def install(self):
@@ -215,7 +246,8 @@ class Disk:
             fd = os.open(os.devnull, os.O_RDWR)
         else:
             fd = os.open(full, flags, 0o644)
-        raw = SimRaw(self, fd, os.fspath(file), readable, writable)
+        raw = SimRaw(self, fd, os.fspath(file), readable, writable,
+                     None if (self.crashed and writable) else full)
         if buffering == 0:
             if not binary:
                 raise ValueError("can't have unbuffered text I/O")
